@@ -29,21 +29,21 @@ def nullable : Re σ → Bool
   | alt a b => a.nullable || b.nullable
   | star _ => true
 
+def isEmpty : Re σ → Bool
+  | empty => true
+  | _ => false
+
+def isEps : Re σ → Bool
+  | eps => true
+  | _ => false
+
 /-- `seq` that absorbs `empty` and `eps` on the left. -/
 def mkSeq (a b : Re σ) : Re σ :=
-  match a with
-  | empty => empty
-  | eps => b
-  | a => seq a b
+  if a.isEmpty then empty else if a.isEps then b else seq a b
 
 /-- `alt` that drops `empty` operands. -/
 def mkAlt (a b : Re σ) : Re σ :=
-  match a with
-  | empty => b
-  | a =>
-    match b with
-    | empty => a
-    | b => alt a b
+  if a.isEmpty then b else if b.isEmpty then a else alt a b
 
 /-- Brzozowski derivative with respect to one letter. -/
 def deriv (sat : σ → α → Bool) : Re σ → α → Re σ
